@@ -357,6 +357,30 @@ class YieldInjector(object):
             time.sleep(self.long_sleep if self.long_sleep and self.yields % 7 == 0 else 0)
 
 
+def observe_item(k):
+    """k: (version, vector string) or ('T', text) or ('R', version, Red Hat string)."""
+    if k[0] == "T":
+        return probe19.observe({"vectors": [], "rh": [], "texts": [k[1]], "dialogues": []})["texts"][0]
+    if k[0] == "R":
+        return probe19.observe({"vectors": [], "rh": [(k[1], k[2])], "texts": [], "dialogues": []})["rh"][0]
+    return json.loads(json.dumps(probe19.observe_vector(*k)))
+
+
+def other_entry_items(rng, pool):
+    """Texts and Red Hat strings made of the pool's vectors: the extractor and from_rh_vector run concurrently too."""
+    out = []
+    vs = [k for k in pool if k[0] in ("2", "3")]
+    for _ in range(8):
+        parts = []
+        for _ in range(rng.randint(2, 5)):
+            parts.append(rng.choice(vs)[1])
+            parts.append(rng.choice([" ", "\n", ". ", " and ", "; "]))
+        out.append(("T", "".join(parts)))
+    for k in rng.sample(pool, 6):
+        out.append(("R", k[0], rng.choice(["7.5/", "0.0/", "x/", "10.0/"]) + k[1]))
+    return out
+
+
 def thread_workload(P, seed, n_threads, per_thread, prob):
     import random
     rng = random.Random("C19-thr-%s" % seed)
@@ -367,7 +391,8 @@ def thread_workload(P, seed, n_threads, per_thread, prob):
             pool.append((ver, s))
             muts = list(V.field_mutants(ver, p, T.parse(ver, s)[1], rng))
             pool.append((ver, rng.choice(muts)[1]))
-    base = {k: probe19.observe_vector(*k) for k in pool}
+    pool += other_entry_items(rng, pool)
+    base = {k: observe_item(k) for k in pool}
     results = []
     errors = []
     old_si = sys.getswitchinterval()
@@ -379,7 +404,7 @@ def thread_workload(P, seed, n_threads, per_thread, prob):
         try:
             for _ in range(per_thread):
                 k = pool[r.randrange(len(pool))]
-                results.append((tid, k, probe19.observe_vector(*k)))
+                results.append((tid, k, observe_item(k)))
         except BaseException as e:  # noqa
             errors.append(repr(e))
 
